@@ -19,7 +19,7 @@ def make_jobs(prop, tier, only=None):
         parts = max(1, len(text) // (12 if quick else 8))
         stride = 3 if quick else 1
         for ph in range(parts):
-            jobs.append(dict(prop=prop, docs=[name], stride=parts * stride, phase=ph * stride, timeout=120 if quick else 600, no_unicode_digits=quick))
+            jobs.append(dict(prop=prop, docs=[name], stride=parts * stride, phase=ph * stride, nparts=parts, part=ph, timeout=120 if quick else 600, no_unicode_digits=quick))
     snames = list(mutworker.SCALAR_DOCS)
     for i in range(0, len(snames), 2):
         jobs.append(dict(prop=prop, docs=snames[i:i + 2], scalar=True, timeout=120 if quick else 600, no_unicode_digits=quick))
